@@ -2,3 +2,4 @@ pub use vvm as vm;
 pub mod util;
 pub mod paych;
 pub mod multisig;
+pub mod minerctl;
